@@ -11,12 +11,14 @@
        cell either (instance of the C01 frame theorem: frozen classes are
        copied like any other since `fix: copy-on-write helpers on frozen
        instances ...`).
-   Not proved (validated by the twin correspondence only, see docs): that a
-   copy-on-write helper on a frozen class computes the same result as on the
-   non-frozen twin (C07_twin, stated below as a comment). *)
+   Partial: that a copy-on-write helper on a frozen class computes the same
+   result as on the non-frozen twin is proved for with_<a>(scalar) on flat
+   instances (C07_cow_with_scalar_partial, C07_twin_with_scalar_partial below);
+   the general statement (C07_twin, in the comment below) is validated by the
+   twin correspondence only. *)
 From Coq Require Import List ZArith Bool Arith.
 From SC Require Import Base.Res Inst.Heap Inst.ClassTable Inst.Model Inst.Framed Inst.FrameProofs
-  Inst.FrozenProofs Props.C01.
+  Inst.FrozenProofs Inst.Abs Inst.SpecHelpers Inst.RefineProofs Inst.CopyProofs Inst.CopyStore Props.C01.
 Import ListNotations.
 Open Scope nat_scope.
 
@@ -82,10 +84,72 @@ Theorem C07_cow_call_on_frozen_instance_writes_nothing :
     frame (length (heap s)) s (snd (step ct roots (OpHelper x hp h) s)).
 Proof. exact C01_cow_call_writes_no_existing_cell. Qed.
 
-(* C07_twin (not proved): for every table ct and its twin ct' (frozen flags
-   cleared), every heap and every copy-on-write call, the results of
-   run_helper under ct and ct' have the same abstraction.  The harness
-   compares twin runs of the implementation instead. *)
+(* "Copy-on-write helpers return a distinct instance carrying the change and
+   otherwise behave exactly as on the same class declared without frozen=True".
+
+   Full statement (C07_twin): for every table ct and its twin ct' (frozen flags
+   cleared), every heap and every copy-on-write call, the results of run_helper
+   under ct and ct' have the same abstraction, and the result is frozen again
+   (not initializing).  NOT proved in general; the harness compares twin runs
+   of the implementation (C07 oracle, `twins`).
+
+   Proved (partial; Inst/CopyProofs.v, Inst/CopyStore.v by the C05 development):
+   with_<a>(v) of a proper scalar v on a FLAT receiver (every attribute value a
+   scalar or a list/dict/set of scalars) of ANY class, frozen or not (there is
+   no hypothesis on c_frozen), class without invalidated_by, non-collection
+   attribute, no or pool preparer, no injected callback failure: a successful
+   call returns a fresh instance, leaves every old cell unchanged, the result's
+   abstraction is what the specification of with_<a> says, and the result is
+   not initializing (the `_thawed` window set and removed the flag on the
+   copy); and two tables that declare the attribute identically (a table and
+   its twin) yield abstractly equal results. *)
+Theorem C07_cow_with_scalar_partial :
+  forall ct h0 l a c d k sp s,
+    nth_error (heap s) l = Some (OInst c d) ->
+    lookup_cls ct c = Some k ->
+    lookup_attr k a = Some sp ->
+    NoDup (map fst d) ->
+    flat_fields (heap s) d ->
+    c_dnc k = false ->
+    no_inval k ->
+    fail_at s = None ->
+    ty_depth (a_ty sp) < FUEL ->
+    ty_is_collection (a_ty sp) = false ->
+    assoc A_INITIALIZING d = None ->
+    a <> A_INITIALIZING ->
+    forall v r s',
+      vscalar v = true ->
+      match a_prepare sp with Some f => scalar_fn f = true | None => True end ->
+      run_helper ct l (HWith a) (mkh [v] false true VMissing false None None [] None) s = (Ok r, s') ->
+      exists l' dfin,
+        r = VRef l' /\ length (heap s) <= l' /\
+        (forall i, i < length (heap s) -> nth_error (heap s') i = nth_error (heap s) i) /\
+        spec_helper ct h0 (absv (heap s) (VRef l)) (SWith a)
+          (mkah [abs0 v] false true AMissing false None None [] None)
+          = SOk (absv (heap s') (VRef l')) /\
+        nth_error (heap s') l' = Some (OInst c dfin) /\
+        assoc A_INITIALIZING dfin = None.
+Proof. exact with_scalar_copy_refines. Qed.
+
+Theorem C07_twin_with_scalar_partial :
+  forall ct1 ct2 l a c d k1 k2 sp s v r1 s1' r2 s2',
+    nth_error (heap s) l = Some (OInst c d) ->
+    lookup_cls ct1 c = Some k1 -> lookup_cls ct2 c = Some k2 ->
+    lookup_attr k1 a = Some sp -> lookup_attr k2 a = Some sp ->
+    NoDup (map fst d) -> flat_fields (heap s) d ->
+    c_dnc k1 = false -> c_dnc k2 = false ->
+    no_inval k1 -> no_inval k2 ->
+    fail_at s = None ->
+    ty_depth (a_ty sp) < FUEL ->
+    ty_is_collection (a_ty sp) = false ->
+    assoc A_INITIALIZING d = None ->
+    a <> A_INITIALIZING ->
+    vscalar v = true ->
+    match a_prepare sp with Some f => scalar_fn f = true | None => True end ->
+    run_helper ct1 l (HWith a) (mkh [v] false true VMissing false None None [] None) s = (Ok r1, s1') ->
+    run_helper ct2 l (HWith a) (mkh [v] false true VMissing false None None [] None) s = (Ok r2, s2') ->
+    absv (heap s1') r1 = absv (heap s2') r2.
+Proof. exact with_scalar_copy_twin. Qed.
 
 (* non-vacuity: a frozen instance, an in-place assignment, FrozenInstanceError *)
 Definition fz_ct : ctable :=
@@ -108,4 +172,6 @@ Print Assumptions C07_inplace_operation_on_frozen_instance_writes_nothing.
 Print Assumptions C07_delete_on_frozen_instance_raises_FrozenInstanceError.
 Print Assumptions C07_write_reaching_the_frozen_guard_raises.
 Print Assumptions C07_cow_call_on_frozen_instance_writes_nothing.
+Print Assumptions C07_cow_with_scalar_partial.
+Print Assumptions C07_twin_with_scalar_partial.
 Print Assumptions C07_nonvacuous.
